@@ -60,3 +60,55 @@ fn('mouette.mesh.datatypes.linear.PolyLine._Connectivity.vertex_to_vertices', pr
    requires=['ts(self)', 'tbl(self)', '0 <= V and V < len(self.mesh.vertices._data)'], modifies=CACHES,
    note='defined in PolyLine._Connectivity; verified on the surface class (same code)',
    ensures=POST)
+
+
+# ------------------------------------------------------------------------------------------------------
+# Part B: content of the half-edge table (region contract on the real statements of _compute_connectivity)
+#
+# Region = the statements from `self._half_edges = dict()` to the loop `for iF, F in enumerate(self.mesh.faces)`.
+# Dropped (not verified here): the statements before (vertex/corner tables) and after (opposite linking, sorting).
+# What the region relies on from the dropped prefix is stated in `requires`: the (vertex, face) -> corner table
+# numbers the corners face by face (first[f] + i), as face_corners does (C02 contract, proved in specs/meshdata).
+predicate('fprefix', 'first, rows', '''first[0] == 0 and all(first[f+1] == first[f] + len(rows[f]) for f in range(len(rows)))
+    and all(all(first[a] <= first[b] for a in range(b + 1)) for b in range(len(rows) + 1))''')
+predicate('hedge', 'rows, f, i', '(rows[f][i], rows[f][(i + 1) % len(rows[f])])')
+predicate('he_entry', 'c, rows, first, f, i', '''hedge(rows, f, i) in c._half_edges
+    and len(c._half_edges[hedge(rows, f, i)]) == 7
+    and c._half_edges[hedge(rows, f, i)][0] == first[f] + i
+    and c._half_edges[hedge(rows, f, i)][1] == first[f] + (i - 1) % len(rows[f])
+    and c._half_edges[hedge(rows, f, i)][2] == first[f] + (i + 1) % len(rows[f])
+    and c._half_edges[hedge(rows, f, i)][3] is None
+    and c._half_edges[hedge(rows, f, i)][4] == f
+    and c._half_edges[hedge(rows, f, i)][5] == i
+    and c._half_edges[hedge(rows, f, i)][6] == (i + 1) % len(rows[f])''')
+predicate('cn_entry', 'c, rows, first, f, i', '(first[f] + i) in c._Cn2he and c._Cn2he[first[f] + i] == hedge(rows, f, i)')
+
+fn(S + '._compute_connectivity#half_edges', of=S + '._compute_connectivity', properties=['C01'],
+   region=('self._half_edges = dict()', 'for iF, F in enumerate(self.mesh.faces)'),
+   ghost_params={'first': 'map[int,int]', 'wf': 'map[tuple[int,int],int]', 'wi': 'map[tuple[int,int],int]', 'cf': 'map[int,int]', 'ci': 'map[int,int]'},
+   lets={'rows': 'self.mesh.faces._data'},
+   requires=['fprefix(first, self.mesh.faces._data)',
+             'all(len(self.mesh.faces._data[f]) >= 3 for f in range(len(self.mesh.faces._data)))',
+             'self._adjVF2Cn is not None',
+             # corner numbering established by the dropped prefix
+             'all(all((self.mesh.faces._data[f][i], f) in self._adjVF2Cn and self._adjVF2Cn[(self.mesh.faces._data[f][i], f)] == first[f] + i '
+             '        for i in range(len(self.mesh.faces._data[f]))) for f in range(len(self.mesh.faces._data)))',
+             # oriented manifold: a directed edge occurs in at most one (face, position), stated through the inverse maps wf, wi
+             # (logical parameters): (f, i) is recovered from the directed edge
+             'all(all(wf[hedge(self.mesh.faces._data, f, i)] == f and wi[hedge(self.mesh.faces._data, f, i)] == i '
+             '        for i in range(len(self.mesh.faces._data[f]))) for f in range(len(self.mesh.faces._data)))',
+             # the corner numbering first[f] + i is invertible (consequence of the monotone prefix sums; logical parameters cf, ci)
+             'all(all(cf[first[f] + i] == f and ci[first[f] + i] == i for i in range(len(self.mesh.faces._data[f]))) for f in range(len(self.mesh.faces._data)))'],
+   modifies=['self._half_edges', 'self._Cn2he'],
+   loops={2: loop(invariant=['self._half_edges is not None and self._Cn2he is not None',
+                             'all(all(he_entry(self, self.mesh.faces._data, first, f, i) for i in range(len(self.mesh.faces._data[f]))) for f in range(it2))',
+                             'all(all(cn_entry(self, self.mesh.faces._data, first, f, i) for i in range(len(self.mesh.faces._data[f]))) for f in range(it2))']),
+          3: loop(invariant=['self._half_edges is not None and self._Cn2he is not None', 'n == len(self.mesh.faces._data[it2])',
+                             'all(all(he_entry(self, self.mesh.faces._data, first, f, i) for i in range(len(self.mesh.faces._data[f]))) for f in range(it2))',
+                             'all(he_entry(self, self.mesh.faces._data, first, it2, i) for i in range(it3))',
+                             'all(all(cn_entry(self, self.mesh.faces._data, first, f, i) for i in range(len(self.mesh.faces._data[f]))) for f in range(it2))',
+                             'all(cn_entry(self, self.mesh.faces._data, first, it2, i) for i in range(it3))'])},
+   ensures=['self._half_edges is not None and self._Cn2he is not None',
+            # every directed edge (f, i) of the face list has its table entry: corner, previous, next, (opposite not linked yet), face, positions
+            'all(all(he_entry(self, self.mesh.faces._data, first, f, i) for i in range(len(self.mesh.faces._data[f]))) for f in range(len(self.mesh.faces._data)))',
+            'all(all(cn_entry(self, self.mesh.faces._data, first, f, i) for i in range(len(self.mesh.faces._data[f]))) for f in range(len(self.mesh.faces._data)))'])
